@@ -10,12 +10,13 @@ Operators == {"drop-last-byte", "drop-first-byte", "empty", "append-c2", "append
               "retag-utf8", "retag-printable", "retag-ia5", "retag-bmp", "retag-teletex", "retag-universal", "odd-length",
               "duplicate-node", "delete-node", "delete-first-child", "duplicate-first-child", "reverse-children", "swap-with-next",
               "all-ff", "min-negative", "max-positive", "all-zero", "inc-last-byte",
-              "mid-percent", "mid-space", "mid-control", "mid-colon", "mid-at", "mid-bracket"}
+              "mid-percent", "mid-space", "mid-control", "mid-colon", "mid-at", "mid-bracket", "drop-last-2", "drop-last-3", "keep-first-2"}
 NumberClasses == {"integer", "enumerated", "boolean"}
 Enabled(c, op) ==
    CASE op \in {"retag-utf8", "retag-printable", "retag-ia5", "retag-bmp", "retag-teletex", "retag-universal"} -> c \in StringClasses /\ op # ("retag-" \o c)
      [] op \in {"append-c2", "append-e0a0", "append-f0", "last-byte-c2", "set-high-bits"} -> c \in StringClasses \cup {"context-prim", "octets"}
      [] op = "odd-length" -> c \in {"bmp", "universal"}
+     [] op \in {"drop-last-2", "drop-last-3", "keep-first-2"} -> c \in {"oid", "octets", "integer"}
      [] op \in {"mid-percent", "mid-space", "mid-control", "mid-colon", "mid-at", "mid-bracket"} -> c \in {"ia5", "utf8", "printable", "context-prim"}
      [] op \in {"all-ff", "min-negative", "max-positive", "all-zero", "inc-last-byte"} -> c \in NumberClasses
      [] op \in {"delete-first-child", "duplicate-first-child", "reverse-children"} -> c \in {"sequence", "set", "context-cons"}
